@@ -63,6 +63,11 @@ func collectHCLKeys(c *Ctx, pkgs []string) (written map[string]token.Pos, read m
 						}
 					case keyOK && (fn.Name() == "Attr" || fn.Name() == "Resource" || fn.Name() == "Resources" || fn.Name() == "hasAttr" || fn.Name() == "convertAttrs" || fn.Name() == "Bool" || fn.Name() == "attrVal"):
 						read[key] = true
+					case !keyOK && (fn.Name() == "Attr" || fn.Name() == "Resource" || fn.Name() == "Resources"):
+						// the key comes from a table that is ranged over: for _, o := range []T{{name: "k"}, …} { spec.Attr(o.name) }
+						for _, k := range tableKeys(info, file, x.Args[0]) {
+							read[k] = true
+						}
 					default:
 						// helper functions taking the key as their last constant argument (e.g. attr(spec, "k"))
 						if fn.Pkg() != nil && strings.HasPrefix(fn.Pkg().Path(), modRoot) {
@@ -612,4 +617,92 @@ func checkSiblingKeys(c *Ctx) {
 	if n == 0 {
 		c.Unresolved("R15f", "converter / marshaller pairs")
 	}
+}
+
+// tableKeys resolves a look-up key that is the loop variable (or a field of the loop variable)
+// of a range over a composite literal, to the string constants the literal holds there.
+func tableKeys(info *types.Info, file *ast.File, e ast.Expr) []string {
+	e = ast.Unparen(e)
+	field := ""
+	var root *ast.Ident
+	switch x := e.(type) {
+	case *ast.Ident:
+		root = x
+	case *ast.SelectorExpr:
+		if id, ok := ast.Unparen(x.X).(*ast.Ident); ok {
+			root, field = id, x.Sel.Name
+		}
+	}
+	if root == nil {
+		return nil
+	}
+	obj := info.ObjectOf(root)
+	var out []string
+	ast.Inspect(file, func(m ast.Node) bool {
+		rs, ok := m.(*ast.RangeStmt)
+		if !ok {
+			return true
+		}
+		v, ok := rs.Value.(*ast.Ident)
+		if !ok || info.ObjectOf(v) != obj {
+			return true
+		}
+		var lit *ast.CompositeLit
+		switch x := ast.Unparen(rs.X).(type) {
+		case *ast.CompositeLit:
+			lit = x
+		case *ast.Ident:
+			// a local or package-level variable initialised with a literal
+			o := info.ObjectOf(x)
+			ast.Inspect(file, func(q ast.Node) bool {
+				switch d := q.(type) {
+				case *ast.ValueSpec:
+					for i, nm := range d.Names {
+						if info.ObjectOf(nm) == o && i < len(d.Values) {
+							lit, _ = ast.Unparen(d.Values[i]).(*ast.CompositeLit)
+						}
+					}
+				case *ast.AssignStmt:
+					for i, l := range d.Lhs {
+						if id, ok := l.(*ast.Ident); ok && info.ObjectOf(id) == o && i < len(d.Rhs) {
+							if cl, ok := ast.Unparen(d.Rhs[i]).(*ast.CompositeLit); ok {
+								lit = cl
+							}
+						}
+					}
+				}
+				return true
+			})
+		}
+		if lit == nil {
+			return true
+		}
+		for _, el := range lit.Elts {
+			if field == "" {
+				if k, ok := stringConst(info, el); ok {
+					out = append(out, k)
+				}
+				continue
+			}
+			cl, ok := ast.Unparen(el).(*ast.CompositeLit)
+			if !ok {
+				continue
+			}
+			for i, fe := range cl.Elts {
+				if kv, ok := fe.(*ast.KeyValueExpr); ok {
+					if id, ok := kv.Key.(*ast.Ident); ok && id.Name == field {
+						if k, ok := stringConst(info, kv.Value); ok {
+							out = append(out, k)
+						}
+					}
+				} else if st, ok := info.TypeOf(cl).Underlying().(*types.Struct); ok && i < st.NumFields() && st.Field(i).Name() == field {
+					if k, ok := stringConst(info, fe); ok {
+						out = append(out, k)
+					}
+				}
+			}
+		}
+		return true
+	})
+	return out
 }
